@@ -67,18 +67,21 @@ type (
 		desc *grpc.ServiceDesc
 		impl any
 	}
-	// Runtime is the in-process "transport": it implements grpc.ServiceRegistrar (server side) and
-	// grpc.ClientConnInterface (client side).
+	// Runtime holds the registered services.
 	Runtime struct {
 		services map[string]*Service
-		byName   map[string]*registered // proto service full name -> descriptor + implementation
 		clients  map[string]any
+	}
+	// link is the in-process "transport" of one service: it implements grpc.ServiceRegistrar (server side)
+	// and grpc.ClientConnInterface (client side).
+	link struct {
+		byName map[string]*registered // proto service full name -> descriptor + implementation
 	}
 )
 
 const scnKey ctxKey = 1
 
-var theRT = &Runtime{services: map[string]*Service{}, byName: map[string]*registered{}, clients: map[string]any{}}
+var theRT = &Runtime{services: map[string]*Service{}, clients: map[string]any{}}
 
 func (s *scnState) add(e Event) {
 	s.mu.Lock()
@@ -166,7 +169,7 @@ func decodeJSON(raw []byte) any {
 // ---- in-process transport ----------------------------------------------------------------------
 
 // RegisterService implements grpc.ServiceRegistrar.
-func (rt *Runtime) RegisterService(desc *grpc.ServiceDesc, impl any) {
+func (rt *link) RegisterService(desc *grpc.ServiceDesc, impl any) {
 	rt.byName[desc.ServiceName] = &registered{desc: desc, impl: impl}
 }
 
@@ -231,7 +234,7 @@ func statusInfo(err error) map[string]any {
 // to the registered service implementation through the handler of its service descriptor, exactly as
 // grpc.Server would after reading them from the wire; the response message, headers and trailers come
 // back the same way.
-func (rt *Runtime) Invoke(ctx context.Context, method string, args any, reply any, opts ...grpc.CallOption) error {
+func (rt *link) Invoke(ctx context.Context, method string, args any, reply any, opts ...grpc.CallOption) error {
 	st := stateOf(ctx)
 	if st == nil {
 		return status.Error(codes.Internal, "verif: no scenario in context")
@@ -314,7 +317,7 @@ func (rt *Runtime) Invoke(ctx context.Context, method string, args any, reply an
 }
 
 // NewStream implements grpc.ClientConnInterface. Streams are not wired in this stand-in transport.
-func (rt *Runtime) NewStream(ctx context.Context, desc *grpc.StreamDesc, method string, opts ...grpc.CallOption) (grpc.ClientStream, error) {
+func (rt *link) NewStream(ctx context.Context, desc *grpc.StreamDesc, method string, opts ...grpc.CallOption) (grpc.ClientStream, error) {
 	if st := stateOf(ctx); st != nil {
 		st.add(Event{"ev": "stream_unsupported", "fullMethod": method})
 	}
@@ -333,8 +336,9 @@ func (rt *Runtime) mount() {
 		s := rt.services[n]
 		eps := s.NewEndpoints(s.Stub)
 		srv := s.NewServer(eps)
-		s.Register(rt, srv)
-		s.SetConn(rt)
+		l := &link{byName: map[string]*registered{}}
+		s.Register(l, srv)
+		s.SetConn(l)
 		rt.clients[n] = s.NewClient()
 	}
 }
